@@ -18,6 +18,8 @@ NOFILE = 'nofile'
 
 
 def s_of(n):
+    if n % 3 == 0:
+        return 'a\tb%d' % n                              # a tab and no blank: needs quoting too
     return ('v%d' % n) if n % 2 else ('a b%d' % n)      # even ids need quoting (blank inside)
 
 
@@ -142,7 +144,7 @@ class World:
                 prev_comment = True
                 continue
             prev_comment = False
-            if s.startswith('typedef'):
+            if s.split()[0] == 'typedef':          # the keyword itself, not a pair whose key merely starts with it
                 in_td = s
                 continue
             toks = s.split()
@@ -287,7 +289,9 @@ def random_trace(root, rng, nops):
         else:
             call['f'] = cur
             if rng.random() < 0.35:
-                k = 'key%d' % nextid
+                k = rng.choice(['key%d' % nextid, 'enum', 'struct', 'typedefs'])
+                if k in used:
+                    k = 'key%d' % nextid
                 call['pairs'] = [[k, nextid]]
                 used.add(k)
             for t in TABLES:
